@@ -25,13 +25,14 @@ import (
 	"go/parser"
 	"go/token"
 	"io/ioutil"
-	"log"
 	"math/rand"
 	"os"
 	"os/exec"
 	"path/filepath"
+	"regexp"
 	"strconv"
 	"strings"
+	"syscall"
 	"testing"
 	"time"
 )
@@ -441,9 +442,12 @@ func xkbCall(c xkbCase, dir string, st *xkbState, out map[string]interface{}) {
 	}
 }
 
+// the convention by which Go tools recognise generated files
+var xkbGenerated = regexp.MustCompile(`^// Code generated .* DO NOT EDIT\.$`)
+
 // xkbParseOffsetsFile describes the generated file as the Go parser sees it.
 func xkbParseOffsetsFile(path string, out map[string]interface{}) {
-	out["parsed"], out["pkg"], out["header"], out["key"], out["initvar"], out["varname"] = false, "", "", "", "", ""
+	out["parsed"], out["pkg"], out["header"], out["key"], out["initvar"], out["varname"], out["marker"] = false, "", "", "", "", "", false
 	entries := []xkbSym{}
 	defer func() { out["entries"] = entries }()
 	data, err := ioutil.ReadFile(path)
@@ -455,6 +459,7 @@ func xkbParseOffsetsFile(path string, out map[string]interface{}) {
 	} else {
 		out["header"] = string(data)
 	}
+	out["marker"] = xkbGenerated.MatchString(out["header"].(string))
 	fset := token.NewFileSet()
 	f, err := parser.ParseFile(fset, path, data, parser.ParseComments)
 	if err != nil {
@@ -630,20 +635,27 @@ func TestVerifXkbChild(t *testing.T) {
 				t.Fatal(err)
 			}
 			enc.Encode(xkbRec{I: i, R: r, Begin: true})
-			log.SetOutput(lf)
+			// everything the run prints (log output, stdout, stderr, a Go crash report) goes to the run's own file
+			o1, _ := syscall.Dup(1)
+			o2, _ := syscall.Dup(2)
+			syscall.Dup2(int(lf.Fd()), 1)
+			syscall.Dup2(int(lf.Fd()), 2)
 			out := map[string]interface{}{}
 			st := &xkbState{}
 			func() {
 				defer func() {
 					if p := recover(); p != nil {
 						out["res"] = "panic"
-						out["msg"] = fmt.Sprint(p)
+						out["panicmsg"] = fmt.Sprint(p)
 					}
 				}()
 				xkbCall(cs, dir, st, out)
 				out["res"] = "ok"
 			}()
-			log.SetOutput(os.Stderr)
+			syscall.Dup2(o1, 1)
+			syscall.Dup2(o2, 2)
+			syscall.Close(o1)
+			syscall.Close(o2)
 			lf.Close()
 			os.Chdir(xkbHome)
 			restore()
@@ -747,15 +759,16 @@ func xkbChain(work string, casesPath string, offsets []int64, cases []xkbCase, r
 		}
 		// the process ended inside the code under test: observe what it left behind
 		out := map[string]interface{}{"res": "exit", "code": exitErr.ExitCode()}
-		if exitErr.ExitCode() < 0 || bytes.Contains(msg, []byte("panic:")) || bytes.Contains(msg, []byte("fatal error:")) {
+		dir := xkbRunDir(work, pass, open, openR)
+		printed, _ := ioutil.ReadFile(filepath.Join(dir, "log.txt"))
+		if exitErr.ExitCode() < 0 || bytes.Contains(printed, []byte("\npanic:")) || bytes.HasPrefix(printed, []byte("panic:")) || bytes.Contains(printed, []byte("fatal error:")) {
 			out["res"] = "died"
-			tail := string(msg)
+			tail := string(printed)
 			if len(tail) > 400 {
 				tail = tail[len(tail)-400:]
 			}
-			out["msg"] = tail
+			out["panicmsg"] = tail
 		}
-		dir := xkbRunDir(work, pass, open, openR)
 		xkbObserve(cases[open], dir, nil, out)
 		os.RemoveAll(dir)
 		res[open] = append(res[open], out)
